@@ -59,6 +59,23 @@ pub fn rare() -> Tree {
     )
 }
 
+/// EXTREME magnitudes (C02): events of probability 2^-60 (below machine epsilon) whose payoffs (2^62) decide what is
+/// optimal - a safe action against a bet that wins 1 almost surely and loses 2^62 otherwise; the same with the rare event
+/// nested (2^-30 x 2^-30) and an opponent who picks the side of the loss
+pub fn extreme() -> Vec<(String, Tree)> {
+    let big = 1i64 << 62;
+    let w60 = 1i64 << 60;
+    let w30 = 1i64 << 30;
+    let bet = chance("none", vec![(w60, term(1)), (1, term(-big))]);
+    let one = player(1, "x", vec![("safe", term(0)), ("bet", bet)]);
+    let inner = |sign: i64| chance("none", vec![(w30, term(1)), (1, term(sign * big))]);
+    let reply = player(2, "y", vec![("l", inner(-1)), ("r", inner(1))]);
+    let nested = player(1, "x", vec![("safe", term(0)), ("bet", chance("none", vec![(w30, term(1)), (1, reply)]))]);
+    // the rare branch first: the order of the outcomes must not matter
+    let first = player(1, "x", vec![("bet", chance("none", vec![(1, term(-big)), (w60, term(1)), (w60, term(1))])), ("safe", term(0))]);
+    vec![("lottery".to_string(), one), ("nested-lottery".to_string(), nested), ("lottery-rare-first".to_string(), first)]
+}
+
 /// strictly dominated actions for both players
 pub fn dominated() -> Tree {
     let resp = |a: i64| player(2, "y", vec![("l", term(a)), ("m", term(a + 3)), ("r", term(a - 1))]);
